@@ -418,6 +418,19 @@ func (w *World) Apply(op string) (string, error) {
 			cfg.AutoIndexPersistInterval = w.Cfg.Persist
 		}
 		cw, err := w.DB.OpenWriter(Ctx, cfg)
+		if err != nil && w.Cfg.BusyIsLegal && strings.Contains(err.Error(), "not found") {
+			// another thread deleted one of the channels between this thread listing them and
+			// opening the writer (the listing is the harness's, not one call of the engine):
+			// what a client does is open on the channels that still exist
+			var still []cesium.ChannelKey
+			for _, k := range chans {
+				if _, e := w.DB.RetrieveChannel(Ctx, k); e == nil {
+					still = append(still, k)
+				}
+			}
+			chans, cfg.Channels = still, still
+			cw, err = w.DB.OpenWriter(Ctx, cfg)
+		}
 		if err != nil {
 			w.Poisoned = "open refused: " + err.Error()
 			return "refused:" + short(err), nil
